@@ -1,20 +1,33 @@
 #!/bin/bash
-# seeded_check.sh <id> <Cxx> [check args]: applies /verif/seeded/<id>/patch.diff to /repo, runs the check, undoes the patch.
+# seeded_check.sh [--in-repo] <id> <Cxx> [check args]
+# Runs a check against IBM/TSS with /verif/seeded/<id>/patch.diff applied.
+#   default:   in a scratch worktree of /repo (VERIF_REPO), safe while other runs use /repo
+#   --in-repo: git -C /repo apply, run, git -C /repo checkout -- .   (only when nothing else is using /repo)
 set -u
+inrepo=0
+if [ "$1" = "--in-repo" ]; then inrepo=1; shift; fi
 id=$1; prop=$2; shift 2
-cd /repo || exit 2
-git diff --quiet || { echo "/repo is dirty"; exit 2; }
-git apply "/verif/seeded/$id/patch.diff" || { echo "patch does not apply"; exit 2; }
 out=$(mktemp -d /tmp/seeded-out-XXXXXX)
-s=$(date +%s)
-VERIF_OUT="$out" /verif/bin/verif check "$prop" "$@" > "$out/log.txt" 2>&1
-rc=$?
+if [ $inrepo -eq 1 ]; then
+  cd /repo || exit 2
+  git diff --quiet || { echo "/repo is dirty"; exit 2; }
+  git apply "/verif/seeded/$id/patch.diff" || { echo "patch does not apply"; exit 2; }
+  s=$(date +%s)
+  VERIF_OUT="$out" /verif/bin/verif check "$prop" "$@" > "$out/log.txt" 2>&1
+  rc=$?
+  git -C /repo checkout -- .
+else
+  wt=$(mktemp -d /tmp/seeded-wt-XXXXXX)
+  git -C /repo worktree add -q --detach "$wt" HEAD || exit 2
+  (cd "$wt" && git apply "/verif/seeded/$id/patch.diff") || { echo "patch does not apply"; git -C /repo worktree remove --force "$wt"; exit 2; }
+  s=$(date +%s)
+  VERIF_REPO="$wt" VERIF_OUT="$out" /verif/bin/verif check "$prop" "$@" > "$out/log.txt" 2>&1
+  rc=$?
+  git -C /repo worktree remove --force "$wt"
+fi
 e=$(date +%s)
-git -C /repo checkout -- .
-grep -E "VIOLATION|class=|KNOWN|runs \(" "$out/log.txt" | cut -c1-260
-echo "seeded_check: id=$id check=$prop exit=$rc wall=$((e-s))s"
-mkdir -p "/verif/seeded/$id"
-ls "$out/replays" 2>/dev/null | head -3
+grep -E "VIOLATION|class=|KNOWN|runs \(|vacuity|trouble" "$out/log.txt" | cut -c1-260
+echo "seeded_check: id=$id check=$prop exit=$rc wall=$((e-s))s mode=$([ $inrepo -eq 1 ] && echo in-repo || echo scratch-worktree)"
 if [ $rc -eq 1 ]; then f=$(ls "$out/replays" | head -1); cp "$out/replays/$f" "/verif/seeded/$id/caught_by_$prop.replay.json"; fi
 rm -rf "$out"
 exit $rc
